@@ -1,6 +1,7 @@
 import Feox.Proto.Disk
 import Feox.Proto.Txn
 import Feox.Proto.Alloc
+import Feox.Fmt.RepCheck
 /-!
 # C03 — any crash leaves a file that reopens to authentic, untorn contents
 
@@ -145,5 +146,22 @@ theorem interleaved_batches_lose_a_record :
     scan (Alloc.writeRec Alloc.staleHead 18 1 9) 24 8 16 = some [(16, 1, 1)] ∧
     Intact (Alloc.writeRec Alloc.staleHead 18 1 9) 18 9 1 :=
   ⟨Alloc.staleHead_ok, Alloc.write_inside_run_breaks_markOK, Alloc.skipped_by_the_scan.1, Alloc.skipped_by_the_scan.2⟩
+
+/-! ### the same at byte level (`Fmt.Abstract`) -/
+
+/-- **The byte-level recovery scan refines the block-level one.**  On a device image that
+represents (`Fmt.Rep`) a tiled disk, the loop of `scan_and_rebuild_indexes` — as modelled branch for
+branch by `Fmt.scan`, which is compared with the real recovery on every image of every run —
+accepts exactly the record generations of the tiling, in device order, keeps the newest of each key
+(ties to the later extent), and never fails with `CorruptedRecord`, an ambiguous tombstone or an
+out-of-range index: it never interprets a tail block, bytes embedded in a value, or anything inside
+a marker's span.  Together with `write_txn_crash_safe`, `retire_txn_crash_safe` and
+`every_crash_point` (every crash image masks to a tiled disk) this is the byte-level form of "any
+crash leaves a file that reopens to authentic, untorn contents". -/
+theorem byte_scan_of_tiled {img : Feox.Fmt.Image} {v lo total : Nat} {o : Feox.Fmt.Opts} {journal : List (Nat × Nat)}
+    {info : Gen → Feox.Fmt.RecMeta} {d : Disk} {L : List Rec}
+    (hro : o.readOnly = false) (hrep : Feox.Fmt.Rep img v lo total info d) (ht : TiledBy d total L lo) (st : Feox.Fmt.ScanSt) :
+    Feox.Fmt.GoodOutcome info L st (Feox.Fmt.scan img v total o journal lo st) :=
+  Feox.Fmt.scan_rep_tiled hro hrep (total - lo) lo L st (Nat.le_refl _) (Nat.le_refl _) ht
 
 end Feox.C03
